@@ -70,7 +70,21 @@ def do_replay(cid, path, tier, seed):
     case = data["case"] if isinstance(data, dict) and "case" in data else data
     chk = load_check(cid, data.get("tier", tier) if isinstance(data, dict) else tier, seed)
     rep = Report(seed)
-    if isinstance(data, dict) and data.get("whole_shard") is not None:
+    try:
+        import resource
+        lim = core.mem_limit(4)
+        resource.setrlimit(resource.RLIMIT_AS, (lim, lim))
+    except Exception:
+        pass
+    if isinstance(case, dict) and set(case) == {"shard"}:
+        # a violation that belongs to a whole shard (budget / memory exceeded outside a guarded case, dead worker)
+        try:
+            chk.run_shard(case["shard"], rep)
+        except core.BudgetExceeded:
+            rep.case(case, ok=False, klass="hang-outside-case", sig="hang-outside-case")
+        except MemoryError:
+            rep.case(case, ok=False, klass="memory-outside-case", sig="memory-outside-case")
+    elif isinstance(data, dict) and data.get("whole_shard") is not None:
         # the violation needs the cases that ran before it in the same process: replay the whole shard
         chk.run_shard(data["whole_shard"], rep)
     else:
@@ -96,7 +110,8 @@ def confirm(cid, v, tier):
             r = subprocess.run([sys.executable, "-B", "-m", "mcv.cli", cid, "--replay", path,
                                 "--tier", tier], cwd=core.VERIF, capture_output=True, text=True,
                                timeout=1800)
-            return r.returncode == 1, r.stdout[-2000:]
+            died = r.returncode < 0 and v.get("sig") == "worker-died"
+            return r.returncode == 1 or died, r.stdout[-2000:]
         except subprocess.TimeoutExpired:
             return True, "replay timed out (hang confirmed)"
     ok, out = run()
